@@ -457,6 +457,7 @@ def run(rep, tier):
         from .. import narrowing
         c07.clause_g(facts, rep)
         c07.clause_ab(facts, rep)
+        c07.clause_e(facts, rep)      # every number text has a fraction/exponent; non-finite values (both signs) are refused, not printed
         narrowing.check(facts, rep, 'E3.lossless-narrowing', ('ftoa.h',), bounds={('FormatSignificand', 'sig'): 10 ** 17}, min_sites=2)
         narrowing.check(facts, rep, 'E3.lossless-narrowing', ('itoa.h',), min_sites=1)
         # 'valid JSON': the string writer may only emit the escapes RFC 8259 defines - the escape tables (shared with C09 / C05)
